@@ -64,7 +64,31 @@ def embed_st():
 
 # ---- converse: bare base64 --------------------------------------------------------------------------
 def b64_cases():
-    return st.fixed_dictionaries({"payload": payloads(12, 64), "wrap": st.sampled_from(["none", "none", "lf", "crlf", "html-dec", "html-hex", "cr", "html-cr", "html-cr+lf", "html-xcr+lf", "html-lf", "html-xlf", "html-dec+crlf"]), "width": st.sampled_from([4, 8, 20, 76]), "embed": embed_st(), "mutate": st.sampled_from(["none", "none", "none", "strip-pad", "hexonly", "letters", "slashes", "fewdistinct"])})
+    return st.fixed_dictionaries({"payload": payloads(12, 64), "wrap": st.sampled_from(["none", "none", "lf", "crlf", "html-dec", "html-hex", "cr", "html-cr", "html-cr+lf", "html-xcr+lf", "html-lf", "html-xlf", "html-dec+crlf"]), "width": st.sampled_from([4, 8, 20, 76]), "embed": embed_st(), "mutate": st.sampled_from(["none", "none", "none", "strip-pad", "hexonly", "letters", "slashes", "fewdistinct", "near", "near"]), "near": near_texts()})
+
+
+NEAR_BASES = {"hex": b"0123456789abcdef", "HEX": b"0123456789ABCDEF", "letters": b"abcdefghijklmnopqrstuvwxyzABCDEFGHIJKLMNOPQRSTUVWXYZ", "digits": b"0123456789"}
+NEAR_ODD = list(b"+/xXgGzZ0a9F")
+
+
+def near_texts():
+    """base64 text built directly: a run over a sub-alphabet that one of the rejection rules names (hex digits, letters,
+    digits) with 0-2 characters from outside it at generated positions (the first two positions are favoured: '+', '0x')"""
+    return st.tuples(
+        st.sampled_from(sorted(NEAR_BASES)),
+        st.integers(6, 12),
+        st.lists(st.integers(0, 255), min_size=48, max_size=48),
+        st.lists(st.tuples(st.sampled_from([0, 0, 1, 1, 2, 5, 11, 22, 23, 30, 47]), st.sampled_from(NEAR_ODD)), max_size=2),
+    )
+
+
+def build_near(spec) -> bytes:
+    base, quanta, idx, odd = spec
+    alpha = NEAR_BASES[base]
+    t = bytearray(alpha[i % len(alpha)] for i in idx[: quanta * 4])
+    for pos, ch in odd:
+        t[pos % len(t)] = ch
+    return bytes(t)
 
 
 def wrap_text(t: bytes, kind: str, width: int) -> bytes:
@@ -105,7 +129,11 @@ def check_b64(case) -> Outcome:
         p = X.b64decode_chars(b"ab/cd/ef/gh/ij/kl/mn/op/qr/st/uv")
     elif mut == "fewdistinct":
         p = X.b64decode_chars(b"ABABABCDCDCDABABABCDCDCD")
+    elif mut == "near":
+        p = X.b64decode_chars(build_near(case["near"]))
     t = X.b64encode(p)
+    if mut == "near":
+        assert t == build_near(case["near"])
     if mut == "strip-pad":
         t = t.rstrip(b"=")
     acceptable = X.bare_b64_acceptable(t)
